@@ -96,6 +96,50 @@ Qed.
 Definition root_same (s s' : sys) : Prop :=
   ph s' = ph s /\ r_unavB s' = r_unavB s /\ r_unavS s' = r_unavS s /\ r_svc s' = r_svc s /\ sigq s' = sigq s.
 
+
+(* what the root loop / the signal / the final join may do *)
+Definition root_keeps (s s' : sys) : Prop :=
+  r_unavB s' = r_unavB s /\ r_unavS s' = r_unavS s /\ r_svc s' = r_svc s.
+
+Inductive root_step (watch : bool) (s s' : sys) : Prop :=
+| RS_drop o rest :                      (* a message the root ignores (watch mode: every message) *)
+    ph s = PRun -> rootq s = o :: rest -> rootq s' = rest ->
+    (watch = true \/ match o with OErr _ => False | OMsg ARoot (MOk _ _ _) => False | _ => True end) ->
+    ph s' = ph s -> root_keeps s s' -> termq s' = termq s -> sigq s' = sigq s -> root_step watch s s'
+| RS_err t rest :
+    watch = false -> ph s = PRun -> rootq s = OErr t :: rest -> rootq s' = rest ->
+    ph s' = PTerminating (SErr t) -> root_keeps s s' -> termq s' = dom (actors s) -> sigq s' = sigq s ->
+    root_step watch s s'
+| RS_okB t act rest :
+    watch = false -> ph s = PRun -> rootq s = OMsg ARoot (MOk KB t act) :: rest -> rootq s' = rest ->
+    ph s' = PRun -> r_unavB s' = r_unavB s ∖ {[t]} -> r_unavS s' = r_unavS s -> r_svc s' = r_svc s ->
+    termq s' = termq s -> sigq s' = sigq s -> root_step watch s s'
+| RS_okS t act rest :
+    watch = false -> ph s = PRun -> rootq s = OMsg ARoot (MOk KS t act) :: rest -> rootq s' = rest ->
+    ph s' = PRun -> r_unavB s' = r_unavB s -> r_unavS s' = r_unavS s ∖ {[t]} ->
+    r_svc s' = (if act then r_svc s ∪ {[t]} else r_svc s) ->
+    termq s' = termq s -> sigq s' = sigq s -> root_step watch s s'
+| RS_idle_exit :
+    watch = false -> ph s = PRun -> r_unavB s = ∅ -> r_unavS s = ∅ -> r_svc s = ∅ ->
+    ph s' = PTerminating SOk -> rootq s' = rootq s -> root_keeps s s' -> termq s' = dom (actors s) -> sigq s' = sigq s ->
+    root_step watch s s'
+| RS_idle_wait :
+    watch = false -> ph s = PRun -> r_unavB s = ∅ -> r_unavS s = ∅ -> r_svc s <> ∅ ->
+    ph s' = PWaitTerm -> rootq s' = rootq s -> root_keeps s s' -> termq s' = termq s -> sigq s' = sigq s ->
+    root_step watch s s'
+| RS_signal :
+    (forall st, ph s <> PExited st) ->
+    ph s' = ph s -> rootq s' = rootq s -> root_keeps s s' -> termq s' = termq s -> sigq s' = true ->
+    root_step watch s s'
+| RS_rootsignal :
+    sigq s = true -> (ph s = PRun \/ ph s = PWaitTerm) ->
+    ph s' = PTerminating SOk -> rootq s' = rootq s -> root_keeps s s' -> termq s' = dom (actors s) -> sigq s' = false ->
+    root_step watch s s'
+| RS_join st :
+    ph s = PTerminating st -> all_exited s = true ->
+    ph s' = PExited st -> rootq s' = rootq s -> root_keeps s s' -> termq s' = termq s -> sigq s' = sigq s ->
+    root_step watch s s'.
+
 Inductive step_inv (fx watch : bool) (s s' : sys) : Prop :=
 | SI_actor (t : tid) (a : astate) (e : event) (ok : bool) (a' : astate) (os : list out) (ob : list obs) :
     actors s !! t = Some a ->
@@ -113,6 +157,7 @@ Inductive step_inv (fx watch : bool) (s s' : sys) : Prop :=
 | SI_root :
     actors s' = actors s -> inbox s' = inbox s -> hist s' = hist s -> slot s' = slot s ->
     (forall o, o ∈ rootq s' -> o ∈ rootq s) ->
+    root_step watch s s' ->
     step_inv fx watch s s'
 | SI_change (ts : list tid) :
     watch = true ->
@@ -159,17 +204,35 @@ Proof.
   - destruct (actors s !! t) as [a|] eqn:Ha; [|done].
     destruct (match r with RCancelled => cancel_sent a | _ => true end); [|done].
     eapply (apply_step_inv fx watch s t a (EBuildDone r) true); try done; eauto.
-  - destruct (root_running s && (watch || negb (root_sets_empty s))); [|done].
+  - destruct (root_running s && (watch || negb (root_sets_empty s))) eqn:Hc; [|done].
+    apply andb_true_iff in Hc as [Hrun Hc]. apply bool_decide_eq_true in Hrun.
     destruct (rootq s) as [|o rest] eqn:Hq; [done|].
     assert (Hsub : forall o', o' ∈ rest -> o' ∈ o :: rest) by (intros; by apply elem_of_list_further).
     destruct watch.
-    + injection H as <-. apply SI_root; cbn; try done. by rewrite Hq.
-    + destruct o as [[|d] [k r|k r|[] t act|k t]|t]; injection H as <-; apply SI_root; cbn; try done; by rewrite Hq.
-  - destruct (root_running s && negb watch && root_sets_empty s); [|done].
-    destruct (set_empty (r_svc s)); injection H as <-; apply SI_root; cbn; done.
-  - destruct (ph s); try done; injection H as <-; apply SI_root; cbn; done.
-  - destruct (sigq s && _); [|done]. injection H as <-. apply SI_root; cbn; done.
+    + injection H as <-. apply SI_root; cbn; try done; [by rewrite Hq|].
+      eapply (RS_drop _ _ _ o rest); cbn; try done; by left.
+    + destruct o as [[|d] [k r|k r|[] t act|k t]|t]; injection H as <-; apply SI_root; cbn; try done;
+        try (by rewrite Hq);
+        first [ by (eapply (RS_drop _ _ _ _ rest); cbn; try done; by right)
+              | by (eapply (RS_okB _ _ _ t act rest); cbn; done)
+              | by (eapply (RS_okS _ _ _ t act rest); cbn; done)
+              | by (eapply (RS_err _ _ _ t rest); cbn; done) ].
+  - destruct (root_running s && negb watch && root_sets_empty s) eqn:Hc; [|done].
+    apply andb_true_iff in Hc as [Hc Hemp]. apply andb_true_iff in Hc as [Hrun Hw].
+    apply bool_decide_eq_true in Hrun. apply negb_true_iff in Hw. subst watch.
+    unfold root_sets_empty in Hemp. apply andb_true_iff in Hemp as [HB HS].
+    apply set_empty_true in HB. apply set_empty_true in HS.
+    destruct (set_empty (r_svc s)) eqn:Hsv; injection H as <-; apply SI_root; cbn; try done.
+    + apply set_empty_true in Hsv. by eapply RS_idle_exit.
+    + apply set_empty_false in Hsv. by eapply RS_idle_wait.
+  - destruct (ph s) eqn:Hph; try done; injection H as <-; apply SI_root; cbn; try done;
+      eapply RS_signal; cbn; try done; intros st0; by rewrite Hph.
+  - destruct (sigq s && _) eqn:Hc; [|done]. injection H as <-.
+    apply andb_true_iff in Hc as [Hsg Hp]. apply orb_true_iff in Hp.
+    apply SI_root; cbn; try done. eapply RS_rootsignal; cbn; try done.
+    destruct Hp as [Hp|Hp]; apply bool_decide_eq_true in Hp; [by left|by right].
   - destruct (watch && _) eqn:Hw; [|done]. injection H as <-.
     apply andb_true_iff in Hw as [-> _]. eapply SI_change; cbn; done.
-  - destruct (ph s); try done. destruct (all_exited s); [|done]. injection H as <-. apply SI_root; cbn; done.
+  - destruct (ph s) eqn:Hph; try done. destruct (all_exited s) eqn:Hall; [|done]. injection H as <-.
+    apply SI_root; cbn; try done. by eapply RS_join.
 Qed.
